@@ -206,6 +206,59 @@ func checkC11(c *Ctx) {
 		r.Unres("R11a", "BindingMiddleware handler literal", "", "not found")
 		return
 	}
+	// ---- R11g / R11h on every emitted Go unit variant
+	r.Rule("R11g", "emitted decoders parse the whole input: no json.NewDecoder(...).Decode, which stops after the first JSON value and lets trailing bytes pass (json.Unmarshal rejects them)", 1)
+	r.Rule("R11h", "every request the emitted Go client sends is created with the caller's context (http.NewRequestWithContext): a peer that never completes its answer cannot hold the caller beyond its deadline", 1)
+	{
+		nUnits, nReq := 0, 0
+		badDec, badDecPos, badReq, badReqPos := "", "", "", ""
+		for _, ri := range c.Roots() {
+			if (ri.Pkg != pkgHTTP && ri.Pkg != pkgClient) || !strings.HasSuffix(ri.Suffix, ".go") {
+				continue
+			}
+			ex := c.ExploreT(ri.Fn, 4000)
+			for _, v := range ex.Variants {
+				for _, u := range v.Units {
+					fset, f, err := ParseUnit(u)
+					if err != nil {
+						continue
+					}
+					nUnits++
+					gen := func(p token.Pos) string {
+						line := fset.Position(p).Line
+						if line >= 1 && line <= len(u.Lines) {
+							return c.P.Pos(u.Lines[line-1].Pos)
+						}
+						return ""
+					}
+					ast.Inspect(f, func(nd ast.Node) bool {
+						call, ok := nd.(*ast.CallExpr)
+						if !ok {
+							return true
+						}
+						switch fun := types.ExprString(call.Fun); {
+						case fun == "json.NewDecoder":
+							if badDec == "" {
+								badDec, badDecPos = "*"+ri.Suffix, gen(call.Pos())
+							}
+						case fun == "http.NewRequest":
+							nReq++
+							if badReq == "" {
+								badReq, badReqPos = "*"+ri.Suffix, gen(call.Pos())
+							}
+						case fun == "http.NewRequestWithContext":
+							nReq++
+						}
+						return true
+					})
+				}
+			}
+		}
+		r.CheckD(badDec == "", "R11g", "no streaming JSON decoder in emitted Go", badDecPos,
+			"an emitted "+badDec+" decodes with json.NewDecoder(…).Decode: only the first JSON value is consumed, so a body such as `{…}{…}` or `{…} garbage` is accepted and dispatched instead of answered with 400", map[string]any{"unit_variants": nUnits})
+		r.CheckD(badReq == "" && nReq > 0, "R11h", "emitted client requests carry the caller's context", badReqPos,
+			"an emitted "+badReq+" builds a request with http.NewRequest (no context): the call ignores the caller's deadline and cancellation, so a stalled or endless response holds the caller forever", map[string]any{"request_constructions": nReq})
+	}
 	// ---- R11f whether the body of a body verb is decoded depends on the verb only
 	r.Rule("R11f", "whether BindingMiddleware decodes the request body depends on the route's verb only, never on a property of the request (Content-Length, a header, the body being nil): an undecoded body is a malformed body that is dispatched", 1)
 	bodyDecodeGuard(c, ep, "R11f")
